@@ -379,12 +379,32 @@ func checkMergeKeysState(c *Ctx) {
 					return true
 				}
 				nDel++
+				// the settle condition reads the counter of the pending state: an integer field of a value of the map's
+				// element type (whatever the field is called), in a guard of the delete
 				inSettle := false
-				for x := b.parent[call]; x != nil; x = b.parent[x] {
-					if ifs, ok := x.(*ast.IfStmt); ok && strings.Contains(exprString(ifs.Cond), ".count") {
+				var elemT types.Type
+				if mt, ok := statesVar.Type().Underlying().(*types.Map); ok {
+					elemT = mt.Elem()
+				}
+				atoms, _ := atomsAt(f, f.Decl.Body, call.Pos())
+				for _, at := range atoms {
+					if elemT != nil && mentions(at.Expr, func(e ast.Expr) bool {
+						sel, ok := e.(*ast.SelectorExpr)
+						if !ok {
+							return false
+						}
+						xt := info.TypeOf(sel.X)
+						ft := info.TypeOf(sel)
+						if xt == nil || ft == nil || !types.Identical(xt, elemT) {
+							return false
+						}
+						bt, ok := ft.Underlying().(*types.Basic)
+						return ok && bt.Info()&types.IsInteger != 0
+					}) {
 						inSettle = true
 					}
 				}
+				_ = b
 				if !inSettle {
 					badDel = true
 				}
@@ -429,28 +449,57 @@ func checkListingPipelines(c *Ctx) {
 		cf := p.Func(lp.chanFn)
 		info := cf.Info()
 		okScan := false
+		pageRewritten := false
 		var scanDesc string
+		// the listing function and the unexported helpers of the package it calls (an iterator factory)
+		scope := []*FuncInfo{cf}
 		ast.Inspect(cf.Decl.Body, func(n ast.Node) bool {
-			call, ok := n.(*ast.CallExpr)
-			if !ok || calleeID(info, call) != "pkg/storage.Store.KeysPrefix" || len(call.Args) != 5 {
-				return true
-			}
-			recv := describeExpr(cf, ast.Unparen(call.Fun).(*ast.SelectorExpr).X, 0)
-			tok := describeExpr(cf, call.Args[1], 0)
-			pre := describeExpr(cf, call.Args[2], 0)
-			del := describeExpr(cf, call.Args[3], 0)
-			cnt := describeExpr(cf, call.Args[4], 0)
-			scanDesc = recv + " KeysPrefix(" + tok + "," + pre + "," + del + "," + cnt + ")"
-			okRecv := strings.HasPrefix(recv, "call:"+lp.storeFn+"(")
-			okPre := strings.HasPrefix(pre, "call:"+lp.prefixFn+"(")
-			okDel := del == "const:\""+lp.delimiter+"\""
-			okCnt := strings.HasSuffix(cnt, ".batchSize")
-			okTok := tok == "litparam"
-			if okRecv && okPre && okDel && okCnt && okTok {
-				okScan = true
+			if call, ok := n.(*ast.CallExpr); ok {
+				if h := p.FuncOpt(calleeID(info, call)); h != nil && h.Decl.Body != nil && h != cf && !ast.IsExported(h.Decl.Name.Name) && strings.HasPrefix(h.ID, "pkg/core.") &&
+					h.ID != "pkg/core.fetchKeys" && h.ID != "pkg/core.mergeKeys" && h.ID != lp.fetchFn {
+					scope = append(scope, h)
+				}
 			}
 			return true
 		})
+		for _, sf := range scope {
+			sf := sf
+			sinfo := sf.Info()
+			ast.Inspect(sf.Decl.Body, func(n ast.Node) bool {
+				call, ok := n.(*ast.CallExpr)
+				if !ok || calleeID(sinfo, call) != "pkg/storage.Store.KeysPrefix" || len(call.Args) != 5 {
+					return true
+				}
+				cf := sf
+				recv := describeExpr(cf, ast.Unparen(call.Fun).(*ast.SelectorExpr).X, 0)
+				tok := describeExpr(cf, call.Args[1], 0)
+				pre := describeExpr(cf, call.Args[2], 0)
+				del := describeExpr(cf, call.Args[3], 0)
+				cnt := describeExpr(cf, call.Args[4], 0)
+				scanDesc = recv + " KeysPrefix(" + tok + "," + pre + "," + del + "," + cnt + ")"
+				okRecv := strings.HasPrefix(recv, "call:"+lp.storeFn+"(")
+				okPre := strings.HasPrefix(pre, "call:"+lp.prefixFn+"(")
+				okDel := del == "const:\""+lp.delimiter+"\""
+				okCnt := strings.HasSuffix(cnt, ".batchSize")
+				okTok := tok == "litparam"
+				if okRecv && okPre && okDel && okCnt && okTok {
+					okScan = true
+				}
+				// the page is returned as the store gave it (through the descriptor-name filter for diamonds and splits,
+				// checked by filter.literal): the call is the returned expression itself, or the operand of the filter
+				// application that is
+				par := sf.parentOf(call)
+				if pc, ok := par.(*ast.CallExpr); ok && lp.filter != "" {
+					par = sf.parentOf(pc)
+				}
+				if _, isRet := par.(*ast.ReturnStmt); !isRet {
+					pageRewritten = true
+				}
+				return true
+			})
+		}
+		c.check(!pageRewritten, "siblings.page-as-listed", lp.chanFn, p.Pos(cf.Decl.Pos()), lp.kind+": the iterator returns the store's page as it is",
+			"the "+lp.kind+" listing no longer returns the page of keys as the store listed it (the result of KeysPrefix is taken apart and rebuilt): keys dropped or rewritten there are objects missing from the listing, with no error")
 		c.check(okScan, "siblings.scan", lp.chanFn, p.Pos(cf.Decl.Pos()), lp.kind+": "+scanDesc,
 			lp.kind+" listing scans `"+scanDesc+"`; expected "+lp.storeFn+"(...).KeysPrefix(next, "+lp.prefixFn+"(...), \""+lp.delimiter+"\", settings.batchSize)")
 		// wiring: go fetchKeys(iterator...), go fetchX(...), mergeKeys for filtered kinds
@@ -470,8 +519,14 @@ func checkListingPipelines(c *Ctx) {
 		if lp.filter != "" {
 			okF := false
 			for _, cs := range callersOf(p, "pkg/core.basenameKeyFilter") {
-				if cs.Fn.ID == lp.chanFn {
-					if s, ok := constString(info, cs.Call.Args[0]); ok && s == lp.filter {
+				inScope := false
+				for _, sf := range scope {
+					if cs.Fn.ID == sf.ID {
+						inScope = true
+					}
+				}
+				if inScope {
+					if s, ok := constString(cs.Fn.Info(), cs.Call.Args[0]); ok && s == lp.filter {
 						okF = true
 					}
 				}
